@@ -377,7 +377,7 @@ static void one_string(const char *s, size_t len)
 static void fam_strings(void)
 {
 	static const char alpha[] = " \t-+019.ex";
-	int na = (int)strlen(alpha), maxlen = mc_tier ? 5 : 4;
+	int na = (int)strlen(alpha), maxlen = mc_tier ? 6 : 4;
 	char s[16];
 	one_string("", 0);
 	for (int len = 1; len <= maxlen; len++)
@@ -499,7 +499,7 @@ static void check_int_node(struct json_object *o, i128 want, const char *when)
 		mc_violation("mutation-wrong-value", "%s: get_uint64 = %s for exact value %s", when, b, a);
 	}
 }
-#define MAXHIST 4
+#define MAXHIST 6
 static void run_history(const struct mop *ops, int n, i128 start, int start_uint)
 {
 	/* executes ops on a fresh node, checking after every step */
@@ -560,7 +560,7 @@ static void fam_mutation(void)
 		}
 	/* deeper: BFS over reachable exact values, merged on (value, representation-as-seen-by-the-API);
 	 * int_inc ops only with a reduced increment set, histories replayed on fresh nodes */
-	int depth = mc_tier ? 4 : 3;
+	int depth = mc_tier ? 5 : 3;
 	static const int inc_sel[] = {0, 1, 2};
 	(void)inc_sel;
 	static struct mop incs[64];
